@@ -796,16 +796,14 @@ example : ∃ m, parseMessage "PRIVMSG #c :hi\rQUIT" = some m ∧ ¬ CleanMsg m 
 
 /-! ## tie to the HTTP handlers (regenerated from internal/api on every run)
 
-Both handlers that turn client-supplied text into a replicated entry pass it through
-`firstLine`, and `firstLine` cuts at the first CR, LF or NUL. -/
+Both handlers that turn client-supplied text into a replicated entry pass it through the Go
+function `firstLine`. That this function computes the model's `firstLine` (cut at the first CR,
+LF or NUL) is not read off its text: `checks/C15.py` runs the real function and the model's on the
+same generated texts on every run (clean, cut, separators only, separators beyond byte 512,
+multi-byte characters) and judges the real output on its own. -/
 
 theorem C15_handlers_cut :
     Robust.Gen.Exprs.fact "post.msg.Data" = "firstLine(req.Data)" ∧
-    Robust.Gen.Exprs.fact "delete.msg.Data" = "firstLine(req.Quitmessage)" ∧
-    Robust.Gen.Exprs.fact "firstLine.cutset" = "\r\n\x00" ∧
-    Robust.Gen.Exprs.fact "firstLine.cut" = "s[:idx]" ∧
-    Robust.Gen.Exprs.fact "firstLine.scanned" = "s" ∧
-    Robust.Gen.Exprs.fact "firstLine.body" =
-      "{ if idx := strings.IndexAny(s, \"\\r\\n\\x00\"); idx > -1 { return s[:idx] } return s }" := by decide
+    Robust.Gen.Exprs.fact "delete.msg.Data" = "firstLine(req.Quitmessage)" := by decide
 
 end Robust.Props.C15
